@@ -4,6 +4,7 @@ from harness import common
 from harness.common import spec
 
 META = {
+    'tier_note': 'quick and thorough use the same (thorough) bounds for this property',
     'level': 'model_checking',
     'claim': 'For valid frames of every kind built from symbolic values, the cut point k is a symbolic '
              'variable ranging over 0..len-1; frame.unmarshal(frame[:k]) must raise exactly '
@@ -69,6 +70,8 @@ def _method_part(m, strlen, timeout):
 
 
 def partitions(tier, seed):
+    # the thorough bounds of this property exhaust in about a minute: the quick tier uses them too
+    tier = 'thorough'
     q = tier == 'quick'
     parts = []
     parts.append(Part('cut_heartbeat', [('ch', 'int'), ('k', 'int')], ['0 <= ch <= 65535', '0 <= k <= 7'],
